@@ -147,7 +147,10 @@ Definition mask_to_n_bits (t : cty) (value bits : Z) : option Z :=
 (* 2. Byte buffers, MemoryAccessor, byte orderers, BitBlock, OffsetBitBlock   *)
 (* ------------------------------------------------------------------------- *)
 
-Inductive order := LE | BE | Null.
+(* Null: NullByteOrderer as in the tree (SizeInBytes() = Ok() ? 1 : 0);
+   NullSized: NullByteOrderer whose SizeInBytes() is the buffer's (the repaired
+   form; the harness picks the constructor after reading the header's text). *)
+Inductive order := LE | BE | Null | NullSized.
 
 Definition byte (b : Z) : Prop := 0 <= b < 256.
 Definition byteb (b : Z) : bool := (0 <=? b) && (b <? 256).
@@ -245,8 +248,9 @@ Definition container_load (opt : bool) (o : order) (kbits : Z) (bytes : list Z) 
   else match o with
        | LE => if opt then Some (load_le_memcpy ct bytes) else load_le_loop ct bytes 0 0
        | BE => if opt then Some (load_be_memcpy ct bytes) else load_be_loop ct kbits bytes 0 0
-       | Null => if kbits =? 8 then (if opt then Some (load_le_memcpy ct bytes) else load_le_loop ct bytes 0 0)
-                 else None
+       | Null | NullSized =>
+           if kbits =? 8 then (if opt then Some (load_le_memcpy ct bytes) else load_le_loop ct bytes 0 0)
+           else None
        end.
 
 Definition container_store (opt : bool) (o : order) (kbits : Z) (bytes : list Z) (value : Z) : option (list Z) :=
@@ -256,8 +260,9 @@ Definition container_store (opt : bool) (o : order) (kbits : Z) (bytes : list Z)
   else match o with
        | LE => if opt then Some (store_le_memcpy ct n value) else store_le_loop ct n value
        | BE => if opt then Some (store_be_memcpy ct n value) else store_be_loop ct n value
-       | Null => if kbits =? 8 then (if opt then Some (store_be_memcpy ct n value) else store_be_loop ct n value)
-                 else None
+       | Null | NullSized =>
+           if kbits =? 8 then (if opt then Some (store_be_memcpy ct n value) else store_be_loop ct n value)
+           else None
        end.
 
 (* What a scalar view holds as its [buffer_]: a BitBlock<ByteOrderer<ContiguousBuffer>, kbits>
@@ -273,10 +278,14 @@ Record bitview := mk_bv {
 
 Definition bv_ct (bv : bitview) : cty := uty (bv_kbits bv).
 
-(* BitBlock::Ok() *)
+(* BitBlock::Ok(): buffer_.Ok() && buffer_.SizeInBytes() * 8 == kBufferSizeInBits.
+   NullByteOrderer::SizeInBytes() is [Ok() ? 1 : 0], whatever the size of the
+   underlying ContiguousBuffer. *)
+Definition orderer_size_in_bytes (o : order) (bs : list Z) : Z :=
+  match o with Null => 1 | _ => Z.of_nat (length bs) end.
 Definition bitblock_ok (bv : bitview) : bool :=
   match bv_bytes bv with
-  | Some bs => Z.of_nat (length bs) * 8 =? bv_kbits bv
+  | Some bs => orderer_size_in_bytes (bv_order bv) bs * 8 =? bv_kbits bv
   | None => false
   end.
 
@@ -606,7 +615,7 @@ Definition splice (root : list Z) (boff : nat) (bs : list Z) : list Z :=
 (* ------------------------------------------------------------------------- *)
 
 Definition container_valz (o : order) (bytes : list Z) : Z :=
-  match o with LE | Null => of_le bytes | BE => of_be bytes end.
+  match o with LE | Null | NullSized => of_le bytes | BE => of_be bytes end.
 
 Definition field_bits (cv off w : Z) : Z := (cv / 2 ^ off) mod 2 ^ w.
 Definition twos_complement (w u : Z) : Z := if u <? 2 ^ (w - 1) then u else u - 2 ^ w.
